@@ -29,6 +29,9 @@ def run(chk):
         why = []
         if "parsePanic" in o:
             why.append("parser panics: %s" % o["parsePanic"][:200])
+        elif o.get("parseErrors") and all(m.startswith("number literal out of range") for _, m in o["parseErrors"]):
+            chk.coverage["out_of_range_literals_reported"] = chk.coverage.get("out_of_range_literals_reported", 0) + 1
+            continue     # the known finding of C14 (number-literal-out-of-range); what C15 forbids is a WRONG value, silently
         elif o.get("parseErrors"):
             why.append("well-formed script reported with errors: %s" % o["parseErrors"][:2])
         elif o.get("ast") != want:
